@@ -41,3 +41,48 @@ contract(CONN + '.send_headers', props=['C02', 'C08', 'C09', 'C10', 'C13', 'C23'
         ('raising-call-keeps-stream-state', 'implies(not new, %s.state == old(%s.state))' % (SM, SM), ['C06', 'C10']),
     ],
     canary='len(g_out) == n0')
+
+
+# ---------------------------------------------------------------------------
+# push_stream (C22, C13, C02, C09, C19, C29)
+PSID = 'self.streams[promised_stream_id]'
+PSM2 = PSID + '.state_machine'
+PK = ('rfc_kind(%s.state.value, S_PUSH, %s.client, %s.headers_sent, %s.trailers_sent, %s.headers_received, '
+      '%s.trailers_received, (-1 if %s.stream_closed_by is None else %s.stream_closed_by.value))' % ((SM,) * 8))
+
+contract(CONN + '.push_stream', props=['C22', 'C13', 'C02', 'C09', 'C19', 'C29', 'C08'],
+    args={'stream_id': 'int', 'promised_stream_id': 'int', 'request_headers': 'hdrlist'},
+    setup=conn_setup, requires=SOK,
+    let={'cst': 'self.state_machine.state.value', 'n0': 'len(g_out)', 'exists': 'stream_id in self.streams',
+         'wm_out': 'self.highest_outbound_stream_id', 'pk': '(%s if exists else K_PROTO)' % PK,
+         'pst': '(%s.state.value if exists else IDLE)' % SM,
+         'peer_allows': 'setting_current(self.remote_settings, S_ENABLE_PUSH) != 0'},
+    ensures=[
+        ('only-servers-push', 'not self.config.client_side', ['C22', 'C08']),
+        ('peer-allows-push', 'peer_allows', ['C22']),
+        ('parent-is-client-initiated', 'exists and stream_id % 2 == 1', ['C22']),
+        ('parent-open-or-half-closed-remote', 'pst == OPEN or pst == HC_REMOTE', ['C22', 'C06']),
+        ('parent-accepts-push', 'pk == K_OK', ['C22', 'C06']),
+        ('promised-id-rules', 'promised_stream_id % 2 == 0 and promised_stream_id > wm_out and 1 <= promised_stream_id and promised_stream_id <= 2147483647 and self.highest_outbound_stream_id == promised_stream_id', ['C22', 'C09', 'C02']),
+        ('inbound-watermark-kept', 'self.highest_inbound_stream_id == old(self.highest_inbound_stream_id)', ['C09']),
+        ('promised-stream-reserved', '(promised_stream_id in self.streams) and %s.state == StreamState.RESERVED_LOCAL and %s.client is False' % (PSM2, PSM2), ['C22', 'C06']),
+        ('parent-state-kept', '%s.state.value == pst' % SM, ['C06']),
+        ('header-block-shape', 'header_block_ok(g_out, n0, "PushPromiseFrame", stream_id, self.max_outbound_frame_size)', ['C02']),
+        ('promised-id-on-the-wire', 'g_out[n0].promised_stream_id == promised_stream_id', ['C02', 'C22']),
+        ('compression-context-advanced-by-this-block-only', 'g_enc == old(g_enc) or g_enc == old(g_enc) + 1', ['C13']),
+        ('not-closed', 'cst != C_CLOSED', ['C19']),
+        ('GI', 'GI(self)')],
+    raises=[
+        dict(exc='StreamIDTooLowError', props=['C09', 'C22'], when='promised_stream_id <= watermark(self, promised_stream_id)'),
+        dict(exc='StreamClosedError', props=['C29', 'C06'],
+             when='(not exists and stream_id <= watermark(self, stream_id)) or (exists and %s.state == StreamState.CLOSED)' % SM),
+        dict(exc='NoSuchStreamError', props=['C29'], when='not exists and stream_id > watermark(self, stream_id)'),
+        dict(exc='ProtocolError', props=['C22', 'C29', 'C19', 'C08']),
+    ],
+    on_raise=QUIET + [
+        ('compression-context-untouched', 'g_enc == old(g_enc)', ['C13']),
+        ('no-stream-reserved', 'all(k in old(self.streams) for k in self.streams)', ['C22', 'C09']),
+        ('watermarks-kept', 'self.highest_outbound_stream_id == wm_out and self.highest_inbound_stream_id == old(self.highest_inbound_stream_id)', ['C22', 'C09']),
+        ('raising-call-keeps-stream-state', 'implies(exists, %s.state.value == pst)' % SM, ['C06', 'C10']),
+    ],
+    canary='len(g_out) == n0')
